@@ -27,6 +27,26 @@ theorem step_add (prog : List Ins) (e : Env) (s s' : State) (i : Ins) (hi : prog
     · cases hs
   · cases hs
 
+theorem step_sub (prog : List Ins) (e : Env) (s s' : State) (i : Ins) (hi : prog[s.pc]? = some i)
+    (hop : i.op = .sub) (hs : step prog e s = .next s') :
+    ∃ r x y, s.stack = r ++ [.int x, .int y] ∧ y ≤ x ∧ s'.stack = r ++ [.int (x - y)] := by
+  unfold step at hs
+  simp only [hi, hop] at hs
+  split at hs
+  · rename_i y r1 hp1
+    split at hs
+    · rename_i x r hp2
+      split at hs
+      · rename_i hle
+        simp only [Outcome.next.injEq] at hs
+        subst hs
+        have e1 := StackEffect.popInt_spec _ _ _ hp1
+        have e2 := StackEffect.popInt_spec _ _ _ hp2
+        exact ⟨r, x, y, by rw [e1, e2]; simp, hle, rfl⟩
+      · cases hs
+    · cases hs
+  · cases hs
+
 theorem step_gtxns (prog : List Ins) (e : Env) (s s' : State) (i : Ins) (f : String) (hi : prog[s.pc]? = some i)
     (hop : i.op = .gtxns f) (hs : step prog e s = .next s') :
     ∃ r k v, s.stack = r ++ [.int k] ∧ e.field k f = some v ∧ s'.stack = r ++ [v] := by
@@ -100,6 +120,58 @@ theorem index_leaf_rel (prog : List Ins) (e : Env) (blockIns : List Ins) (pc0 : 
   have hvp := hout p hp 0 (by rw [hopp]; simp [Op.pushes])
   rw [hopp, hst', hres'] at hvp
   simp [Op.pops] at hvp
+  rw [← hvp, ← hke]
+  exact hw
+
+/-- WHICH MEMBER IS READ, relative form with `-`: `txn GroupIndex; int n; -; gtxns f` reads the member at (own index - n); the
+    machine rejects the subtraction when n exceeds the own index, so in a run that gets past it n ≤ own index -/
+theorem index_leaf_rel_sub (prog : List Ins) (e : Env) (blockIns : List Ins) (pc0 : Nat) (st : Nat → State) (k : Nat)
+    (hrun : BlockRun prog e blockIns pc0 k st) (valOf : Nat × Nat → Val)
+    (hout : ∀ j, j < k → ∀ i, i < (blockIns[j]!).op.pushes →
+      (st (j + 1)).stack[(st j).stack.length - (blockIns[j]!).op.pops + i]? = some (valOf (j, i)))
+    (hargs : ∀ j, j < k → Forall₂ (Agree valOf) (argsAt blockIns j)
+      ((st j).stack.drop ((st j).stack.length - (blockIns[j]!).op.pops)))
+    (p pa p1 p2 : Nat) (f : String) (n : Nat) (hp : p < k) (hpa : pa < k) (hp1 : p1 < k) (hp2 : p2 < k)
+    (hopp : (blockIns[p]!).op = .gtxns f) (hopa : (blockIns[pa]!).op = .sub)
+    (hop1 : (blockIns[p1]!).op = .txn "GroupIndex") (hop2 : (blockIns[p2]!).op = .int (.lit n))
+    (hargsp : argsAt blockIns p = [some (pa, 0)]) (hargsa : argsAt blockIns pa = [some (p1, 0), some (p2, 0)]) :
+    n ≤ e.self ∧ e.field (e.self - n) f = some (valOf (p, 0)) := by
+  have code : ∀ j, j < k → prog[(st j).pc]? = some (blockIns[j]!) := by
+    intro j hj; rw [hrun.pcs j (by omega)]; exact hrun.code j hj
+  obtain ⟨v, hv, hs1⟩ := step_txn prog e (st p1) (st (p1 + 1)) _ "GroupIndex" (code p1 hp1) hop1 (hrun.steps p1 hp1)
+  have hvi := field_groupIndex e e.self v hv
+  have hv1 := hout p1 hp1 0 (by rw [hop1]; simp [Op.pushes])
+  rw [hop1, hs1] at hv1
+  simp [Op.pops] at hv1
+  obtain ⟨hs2, _⟩ := step_int prog e (st p2) (st (p2 + 1)) _ n (code p2 hp2) hop2 (hrun.steps p2 hp2)
+  have hv2 := hout p2 hp2 0 (by rw [hop2]; simp [Op.pushes])
+  rw [hop2, hs2] at hv2
+  simp [Op.pops] at hv2
+  obtain ⟨r, x, y, hst, hle, hres⟩ := step_sub prog e (st pa) (st (pa + 1)) _ (code pa hpa) hopa (hrun.steps pa hpa)
+  have hag := hargs pa hpa
+  rw [hargsa, hopa, hst] at hag
+  simp [Op.pops] at hag
+  obtain ⟨hx, hy⟩ := hag
+  have hx' : Val.int x = valOf (p1, 0) := hx (p1, 0) rfl
+  have hy' : Val.int y = valOf (p2, 0) := hy (p2, 0) rfl
+  rw [← hv1, hvi] at hx'
+  rw [← hv2] at hy'
+  have hxe : x = e.self := by injection hx'
+  have hye : y = n := by injection hy'
+  have hva := hout pa hpa 0 (by rw [hopa]; simp [Op.pushes])
+  rw [hopa, hst, hres] at hva
+  simp [Op.pops] at hva
+  obtain ⟨r', kk, w, hst', hw, hres'⟩ := step_gtxns prog e (st p) (st (p + 1)) _ f (code p hp) hopp (hrun.steps p hp)
+  have hag' := hargs p hp
+  rw [hargsp, hopp, hst'] at hag'
+  simp [Op.pops] at hag'
+  have hk : Val.int kk = valOf (pa, 0) := hag' (pa, 0) rfl
+  rw [← hva, hxe, hye] at hk
+  have hke : kk = e.self - n := by injection hk
+  have hvp := hout p hp 0 (by rw [hopp]; simp [Op.pushes])
+  rw [hopp, hst', hres'] at hvp
+  simp [Op.pops] at hvp
+  refine ⟨by rw [← hxe, ← hye]; exact hle, ?_⟩
   rw [← hvp, ← hke]
   exact hw
 
